@@ -753,6 +753,8 @@ SHAPE_OBLIGATIONS = {
     'setitem_worldspawn_guard_error_path_restores_the_index': 'maint_guard_error_ok gen_setitem_maint',
     'setitem_targetname_branch_rekeys_by_target': 'maint_targetname_ok gen_setitem_maint',
     'setitem_other_keys_leave_the_indexes_alone': 'maint_other_ok gen_setitem_maint',
+    # round 5, state census: membership is decided by scanning the entity list, not by a flag cached on the entity
+    'setitem_decides_membership_by_scanning_the_entity_list_not_by_a_cached_flag': 'prog_stateless gen_setitem_maint',
     # VMF.add_ents over an iterable argument (theorem c07_add_ents_as_written)
     'add_ents_lists_and_indexes_each_entity_once_for_a_list_argument': 'ae_ok_reiterable gen_add_ents',
     'add_ents_lists_and_indexes_each_entity_once_for_a_one_shot_iterable': 'ae_ok_oneshot gen_add_ents',
@@ -774,6 +776,7 @@ DEL_OBLIGATIONS = {
     'delitem_targetname_branch_rekeys_by_target_under_the_membership_test': 'del_targetname_ok gen_delitem_maint',
     'delitem_refuses_the_classname': 'del_classname_refused gen_delitem_maint',
     'delitem_other_keys_leave_the_indexes_alone': 'del_other_ok gen_delitem_maint',
+    'delitem_decides_membership_by_scanning_the_entity_list_not_by_a_cached_flag': 'prog_stateless gen_delitem_maint',
     'delitem_lookup_is_case_insensitive': 'del_loop_case_insensitive gen_delitem_loop',
     'delitem_pops_the_stored_spelling': 'del_loop_pops_stored gen_delitem_loop',
     # Entity.clear (theorem c07_clear_as_written)
